@@ -171,6 +171,17 @@ type c19Rec struct {
 	Labels map[string]string
 	Name   map[string]string
 	Lines  []string
+	// LName, if set, holds each line's own name-derived labels (results are
+	// re-read from the stored lines, so those are what a query returns). Under
+	// the statement's rule they equal Name; only the loose alternative differs.
+	LName []map[string]string
+}
+
+func (r *c19Rec) nameOf(i int) map[string]string {
+	if r.LName != nil {
+		return r.LName[i]
+	}
+	return r.Name
 }
 
 // c19Server is what the server told us about one successful upload.
@@ -243,6 +254,45 @@ func c19Results(up int, u c19Upload, s c19Server) []c19Res {
 // statement's rule is flushRule=false.
 const c19FlushLabels = 248
 
+// c19LooseEqual is NOT map equality: a key missing on one side counts as equal
+// to an empty value on the other as long as the sizes agree. It is used ONLY to
+// recognise the root cause coalesce-empty-vs-missing-label.
+func c19LooseEqual(a, b map[string]string) bool {
+	if len(a) != len(b) {
+		return false
+	}
+	for k, v := range a {
+		if b[k] != v {
+			return false
+		}
+	}
+	return true
+}
+
+// Record sets of the model: the statement's rule and two alternatives that are
+// only consulted to give a known root cause its own signature.
+const (
+	c19RecsStatement = iota
+	c19RecsFlush
+	c19RecsLoose
+)
+
+func c19CoalesceLoose(rs []c19Res) []c19Rec {
+	var out []c19Rec
+	for _, r := range rs {
+		if len(out) > 0 {
+			last := &out[len(out)-1]
+			if c19LooseEqual(last.Labels, r.Labels) && c19LooseEqual(last.Name, r.Name) {
+				last.Lines = append(last.Lines, r.Line)
+				last.LName = append(last.LName, r.Name)
+				continue
+			}
+		}
+		out = append(out, c19Rec{Up: r.Up, Labels: r.Labels, Name: r.Name, Lines: []string{r.Line}, LName: []map[string]string{r.Name}})
+	}
+	return out
+}
+
 // c19Coalesce groups the results of one upload into stored records.
 func c19Coalesce(rs []c19Res, flushRule bool) []c19Rec {
 	var out []c19Rec
@@ -285,6 +335,8 @@ type c19Model struct {
 	recsF        [][]c19Rec // per upload, flush rule (finding recognition only)
 	hasCR        bool
 	hasEmptyName bool
+	recsL        [][]c19Rec // per upload, loose label equality (root-cause recognition only)
+	hasEmptyVal  bool
 }
 
 type c19ResolvedTerm struct {
@@ -403,20 +455,31 @@ func c19StripCRMap(m map[string]string) map[string]string {
 
 // expectResults returns the canonical multiset (sorted) of results the query
 // must return. upTo limits the model to the first upTo uploads.
-func (m *c19Model) expectResults(ts []c19ResolvedTerm, upTo int, gtMode int, stripCR bool) []string {
+func (m *c19Model) set(recset int) [][]c19Rec {
+	switch recset {
+	case c19RecsFlush:
+		return m.recsF
+	case c19RecsLoose:
+		return m.recsL
+	}
+	return m.recs
+}
+
+func (m *c19Model) expectResults(ts []c19ResolvedTerm, upTo int, gtMode int, stripCR bool, recset int) []string {
 	var out []string
 	gtAny := c19GtAnyKeys(ts, gtMode)
-	for u := 0; u < upTo && u < len(m.recs); u++ {
-		for i := range m.recs[u] {
-			r := &m.recs[u][i]
+	recs := m.set(recset)
+	for u := 0; u < upTo && u < len(recs); u++ {
+		for i := range recs[u] {
+			r := &recs[u][i]
 			if !c19Match(r, ts, gtAny) {
 				continue
 			}
-			for _, l := range r.Lines {
+			for li, l := range r.Lines {
 				if stripCR {
-					out = append(out, c19Canon(c19StripCR(l), c19StripCRMap(r.Labels), r.Name))
+					out = append(out, c19Canon(c19StripCR(l), c19StripCRMap(r.Labels), r.nameOf(li)))
 				} else {
-					out = append(out, c19Canon(l, r.Labels, r.Name))
+					out = append(out, c19Canon(l, r.Labels, r.nameOf(li)))
 				}
 			}
 		}
@@ -432,13 +495,10 @@ type c19Info struct {
 
 // expectListing: uploads with at least one matching stored record, newest
 // first, at most limit (0 = all).
-func (m *c19Model) expectListing(ts []c19ResolvedTerm, upTo, limit int, gtMode int, flushRule bool) []c19Info {
+func (m *c19Model) expectListing(ts []c19ResolvedTerm, upTo, limit int, gtMode int, recset int) []c19Info {
 	var out []c19Info
 	gtAny := c19GtAnyKeys(ts, gtMode)
-	recs := m.recs
-	if flushRule {
-		recs = m.recsF
-	}
+	recs := m.set(recset)
 	for u := upTo - 1; u >= 0; u-- {
 		n := 0
 		for i := range recs[u] {
@@ -736,20 +796,24 @@ func (m *c19Model) judgeResults(level, text string, ts []c19ResolvedTerm, o c19O
 	if o.err != nil {
 		return kit.Failf("query-error", "%s Query(%q): %v", level, text, o.err)
 	}
-	want := m.expectResults(ts, upTo, c19Strict, false)
+	want := m.expectResults(ts, upTo, c19Strict, false, c19RecsStatement)
 	d := c19DiffSorted(o.res, want)
 	if d == "" {
 		return nil
 	}
-	if len(c19GtAnyKeys(ts, c19GtMergedAny)) > 0 && c19DiffSorted(o.res, m.expectResults(ts, upTo, c19GtMergedAny, false)) == "" {
+	if len(c19GtAnyKeys(ts, c19GtMergedAny)) > 0 && c19DiffSorted(o.res, m.expectResults(ts, upTo, c19GtMergedAny, false, c19RecsStatement)) == "" {
 		nar.set(kit.Failf("gt-empty-merged-with-lt", "%s Query(%q): key>\"\" merged with key<v on the same key loses its lower bound; the only discrepancy is records whose label is the empty string: %s", level, text, d))
 		return nil
 	}
-	if len(c19GtAnyKeys(ts, c19GtAny)) > 0 && c19DiffSorted(o.res, m.expectResults(ts, upTo, c19GtAny, false)) == "" {
+	if len(c19GtAnyKeys(ts, c19GtAny)) > 0 && c19DiffSorted(o.res, m.expectResults(ts, upTo, c19GtAny, false, c19RecsStatement)) == "" {
 		nar.set(kit.Failf("gt-empty-matches-empty-value", "%s Query(%q) also returns records whose label is the empty string although \"\" > \"\" is false: %s", level, text, d))
 		return nil
 	}
-	if m.hasCR && c19DiffSorted(o.res, m.expectResults(ts, upTo, c19Strict, true)) == "" {
+	if m.hasEmptyVal && c19DiffSorted(o.res, m.expectResults(ts, upTo, c19Strict, false, c19RecsLoose)) == "" {
+		nar.set(kit.Failf("coalesce-empty-vs-missing-label", "%s Query(%q): a result was stored in the record of the preceding result although their name-derived labels differ (one has a key with an empty value where the other has a different key): %s", level, text, d))
+		return nil
+	}
+	if m.hasCR && c19DiffSorted(o.res, m.expectResults(ts, upTo, c19Strict, true, c19RecsStatement)) == "" {
 		nar.set(kit.Failf("cr-terminated-label-or-line", "%s Query(%q): mismatch confined to a trailing CR of label values / lines: %s", level, text, d))
 		return nil
 	}
@@ -789,7 +853,7 @@ func c19IsEOF(err error) bool {
 }
 
 func (m *c19Model) judgeListing(level, text string, ts []c19ResolvedTerm, limit int, o c19ListObs, upTo int, nar *c19Narrow) *kit.Fail {
-	want := m.expectListing(ts, upTo, limit, c19Strict, false)
+	want := m.expectListing(ts, upTo, limit, c19Strict, c19RecsStatement)
 	if o.err != nil {
 		if c19IsEOF(o.err) && len(want) == 0 && len(o.infos) == 0 {
 			nar.set(kit.Failf("listing-contradiction-eof", "%s ListUploads(%q, limit %d): error %q instead of an empty listing for a query that can match nothing", level, text, limit, o.err))
@@ -800,18 +864,22 @@ func (m *c19Model) judgeListing(level, text string, ts []c19ResolvedTerm, limit 
 	if c19InfosEqual(o.infos, want) {
 		return nil
 	}
-	if len(c19GtAnyKeys(ts, c19GtMergedAny)) > 0 && c19InfosEqual(o.infos, m.expectListing(ts, upTo, limit, c19GtMergedAny, false)) {
+	if len(c19GtAnyKeys(ts, c19GtMergedAny)) > 0 && c19InfosEqual(o.infos, m.expectListing(ts, upTo, limit, c19GtMergedAny, c19RecsStatement)) {
 		nar.set(kit.Failf("gt-empty-merged-with-lt", "%s ListUploads(%q, limit %d) = %v, want %v (key>\"\" merged with key<v lost its lower bound; only records with an empty label value are spurious)", level, text, limit, o.infos, want))
 		return nil
 	}
-	if len(c19GtAnyKeys(ts, c19GtAny)) > 0 && c19InfosEqual(o.infos, m.expectListing(ts, upTo, limit, c19GtAny, false)) {
+	if len(c19GtAnyKeys(ts, c19GtAny)) > 0 && c19InfosEqual(o.infos, m.expectListing(ts, upTo, limit, c19GtAny, c19RecsStatement)) {
 		nar.set(kit.Failf("gt-empty-matches-empty-value", "%s ListUploads(%q, limit %d) = %v, want %v (key>\"\" matched an empty value)", level, text, limit, o.infos, want))
 		return nil
 	}
 	// Recorded finding: a flush of the queued label rows in the middle of an
 	// upload ends the current run of identical-label results. Recognised only
 	// when the listing is exactly what that rule predicts.
-	if wf := m.expectListing(ts, upTo, limit, c19Strict, true); c19InfosEqual(o.infos, wf) {
+	if m.hasEmptyVal && c19InfosEqual(o.infos, m.expectListing(ts, upTo, limit, c19Strict, c19RecsLoose)) {
+		nar.set(kit.Failf("coalesce-empty-vs-missing-label", "%s ListUploads(%q, limit %d) = %v, want %v: a result was stored in the record of the preceding result although their name-derived labels differ (empty value vs. missing key)", level, text, limit, o.infos, want))
+		return nil
+	}
+	if wf := m.expectListing(ts, upTo, limit, c19Strict, c19RecsFlush); c19InfosEqual(o.infos, wf) {
 		nar.set(kit.Failf("coalesce-split-at-flush", "%s ListUploads(%q, limit %d) = %v, statement (one record per run of identical labels) gives %v; the difference is exactly the runs split where >= %d label rows were queued", level, text, limit, o.infos, want, c19FlushLabels))
 		return nil
 	}
@@ -920,6 +988,14 @@ func (m *c19Model) finish(s *c19Sys, ups []c19Upload) *kit.Fail {
 		}
 		m.recs = append(m.recs, c19Coalesce(rs, false))
 		m.recsF = append(m.recsF, c19Coalesce(rs, true))
+		m.recsL = append(m.recsL, c19CoalesceLoose(rs))
+		for _, r := range rs {
+			for _, v := range r.Name {
+				if v == "" {
+					m.hasEmptyVal = true
+				}
+			}
+		}
 	}
 	return nil
 }
@@ -1377,6 +1453,20 @@ func c19EdgeCases(thorough bool, yield func(c19Case)) {
 			for lim := 0; lim < 2; lim++ {
 				c.Queries = append(c.Queries, c19Query{Terms: ts, Render: uint64(len(c.Queries)), Limit: lim})
 			}
+		}
+		yield(c)
+
+		// (6) consecutive results whose name-derived labels differ only by
+		// "key with empty value" vs "other key"
+		c = c19Case{ID: id, Direct: direct}
+		id++
+		c.Uploads = []c19Upload{{Files: []c19File{{Name: "l.txt", Lines: []c19Line{
+			c19BenchL("Foo", " 1 1 ns/op", c19Sub{Key: "mode", Val: ""}, c19Sub{Key: "size", Val: ""}),
+			{K: c19Bench, Base: "Foo", Subs: []c19Sub{{Key: "size", Val: ""}}, Procs: "16", Rest: " 1 2 ns/op"},
+			c19BenchL("Foo", " 1 3 ns/op", c19Sub{Val: ""}), c19BenchL("Foo", " 1 4 ns/op", c19Sub{Key: "mode", Val: ""}),
+		}}}}}
+		for _, ts := range [][]c19Term{{c19T("gomaxprocs", ":", "16")}, {c19T("name", ":", "Foo")}, {c19T("mode", "<", "a")}, {c19T("sub1", "<", "a")}, {}} {
+			c.Queries = append(c.Queries, c19Query{Terms: ts, Render: uint64(len(c.Queries)), Limit: 1})
 		}
 		yield(c)
 
